@@ -241,7 +241,8 @@ PROPS = {
         "technique": "property-based testing (rapid): vector search vs. a top-k validity predicate computed from the reference model, against a fake exact/IVF engine",
         "level_text": "Randomised exploration with shrinking; exact-index answers are decided up to ties, clustered-index answers by the soundness part of the predicate.",
         "level_note": "Trusts the fake vector engine (own unit tests + fuzzing) and the reference model.",
-        "stages": [rapid_stage("vector-search", "TestC14", 300, 2500, tags="verif,vectors")],
+        "stages": [rapid_stage("vector-search", "TestC14", 300, 2500, tags="verif,vectors"),
+                   {"name": "identical-vectors", "test": "TestC14Identical", "tags": "verif,vectors", "quick": {"shards": 1, "timeout": 600}, "thorough": {"shards": 1, "timeout": 900}}],
     },
     "C15": {
         "level": "exploration",
@@ -251,7 +252,8 @@ PROPS = {
         "level_text": "Randomised exploration with shrinking over merge chains of segments with vector fields.",
         "level_note": "Trusts the fake vector engine and the reference model.",
         "stages": [rapid_stage("merge-vectors", "TestC15", 200, 1500, tags="verif,vectors"),
-                   {"name": "merge-restart", "test": "TestC15Restart", "tags": "verif,vectors", "quick": {"shards": 1, "timeout": 300}, "thorough": {"shards": 1, "timeout": 600}}],
+                   {"name": "merge-restart", "test": "TestC15Restart", "tags": "verif,vectors", "quick": {"shards": 1, "timeout": 300}, "thorough": {"shards": 1, "timeout": 600}},
+                   {"name": "merge-identical", "test": "TestC15Identical", "tags": "verif,vectors", "quick": {"shards": 1, "timeout": 900}, "thorough": {"shards": 1, "timeout": 1200}}],
     },
     "C16": {
         "level": "exploration",
@@ -357,8 +359,8 @@ RULE_ADDENDA_7 = {
     "C06": "fixed plans with three inputs whose field lists diverge after a common prefix, and with hits carrying more than 127 bytes of locations through a byte-copy merge",
     "C10": "a deterministic history (history-fixed) builds a batch whose image exceeds 16 MiB and then small non-empty batches on the same pooled builder",
     "C11": "the stress mix calls Size() concurrently with first-time dictionary loads",
-    "C14": "half of the clustered layouts give every third document a second vector; eligible sets include 'only documents with one vector', also as fixed queries whose query vector is the second vector of an ineligible document; every case ends with a filtered, fully selective query of the wrong dimension",
-    "C15": "a deterministic plan (merge-restart) whose leaves were built and persisted by OTHER processes (files from before a restart; same vectors in the same order under different ids), merged, and merged again with a further such file",
+    "C14": "half of the clustered layouts give every third document a second vector; eligible sets include 'only documents with one vector', also as fixed queries whose query vector is the second vector of an ineligible document; every case ends with a filtered, fully selective query of the wrong dimension; a deterministic case (identical-vectors) builds 150000 documents carrying the same vector, all of which must be indexed and counted",
+    "C15": "a deterministic plan (merge-restart) whose leaves were built and persisted by OTHER processes (files from before a restart; same vectors in the same order under different ids), merged, and merged again with a further such file; a deterministic plan (merge-identical) merges two inputs of 100000 documents that all carry the same vector: the output must hold and count every one of them",
     "C16": "15 % of searches are failed by the engine (the handle must survive and other handles be unaffected); the deterministic history fails a search of a second handle, closes it, runs four expiry passes and searches through the first handle",
     "C17": "under the vectors tag a file reported as complete must hold every surviving vector",
     "C18": "every engine-operation closure point is tried 3..6 times (the order in which sections are merged varies per call); a deterministic plan (cancel-fixed-vectors) merges three inputs with vectors in one field; a success must hold every surviving vector",
